@@ -261,6 +261,8 @@ class FieldData:
       self._data[fieldname] = value
     if renaming_connected:
       self._gfa._register_line(self)
+      if fieldname == "external":
+        self._set_reference_orientations_editable(False)
 
   def _dealias_fieldname(self, fieldname):
     return self.__class__.FIELD_ALIAS.get(fieldname, fieldname)
